@@ -257,6 +257,37 @@ def run(ck, replay=None):
         tspecs.append((sel, "geometry-" + gkind, make, use, lambda x, y: np.allclose(x, y, rtol=1e-9), "twin:" + gkind))
     ntwin = twoobj.run(ck, "C03", tspecs)
     ck.cov["twin_object_histories"] = ntwin
+    # one geometry integrating again after calls it rejected (spec/FailedCalls.tla), in 1, 2 and 3 dimensions: a rejected
+    # call (foreign resolution where only 2-D supports it, data of another dimension, no data) leaves no trace
+    from lib import failedcalls
+    fhists = failedcalls.histories(ck)
+    fspecs = []
+    for gkind in ("weighted", "extporous", "porous", "extruded"):
+        for nv in ((6,), (4, 6), (2, 3, 4)):
+            dim = len(nv)
+            wgt = 1.0 + np.arange(float(np.prod(nv))).reshape(nv) % 5
+
+            def fmake(gkind=gkind, nv=nv, dim=dim, wgt=wgt):
+                kw = dict(space_dim=dim, num_voxels=nv, dimensions=[1.0 + d for d in range(dim)])
+                if gkind == "weighted":
+                    return darsia.WeightedGeometry(wgt.copy(), **kw)
+                if gkind == "porous":
+                    return darsia.PorousGeometry(wgt.copy() / 8, **kw)
+                if gkind == "extruded":
+                    return darsia.ExtrudedGeometry(wgt.copy(), **kw)
+                return darsia.ExtrudedPorousGeometry(wgt.copy() / 8, np.ones(nv) * 0.5, **kw)
+
+            def fuse(g, nv=nv, dim=dim):
+                shapes = [nv, nv] + ([(2, 3), (8, 12), nv] if dim == 2 else [])
+                return [float(g.integrate(1.0 + np.arange(float(np.prod(r_))).reshape(r_))) for r_ in shapes]
+
+            foreign = tuple(2 * n for n in nv)
+            bads = [lambda foreign=foreign: np.ones(foreign), lambda nv=nv: np.ones(nv + (2, 2, 2))[..., 0, :, :][..., :0], lambda: None, lambda: "no data",
+                    lambda nv=nv: np.ones(tuple(n + 1 for n in nv) + (3,))[0]]
+            for bi, bad in enumerate(bads):
+                fspecs.append((fhists, f"geometry-{gkind}-{dim}d-bad{bi}", fmake, fuse, lambda g, bad=bad: g.integrate(bad()),
+                               lambda x, y: np.allclose(x, y, rtol=1e-9), f"failed:{gkind}:{dim}:{bi}"))
+    ck.cov["failed_call_histories"] = failedcalls.run(ck, "C03", fspecs)
     if replay:
         cases = [tuple(c["case"]) for c in json.load(open(replay))["cases"]]
         cases = [(c[0], c[1], tuple(c[2]), c[3], c[4], bool(c[5]), bool(c[6])) + tuple(c[7:]) for c in cases]
